@@ -199,7 +199,11 @@ class KMLServer(Server):
         tile = tile_request.tile
         bbox = layer.tile_bbox(tile_request, use_profiles=tile_request.use_profiles, limit=True)
 
-        level = layer.grid.internal_tile_coord((tile[0], tile[1], tile[2]+1), use_profiles=False)[2]
+        next_level_coord = layer.grid.internal_tile_coord((tile[0], tile[1], tile[2]+1), use_profiles=False)
+        if next_level_coord is None:
+            # last level of the grid: there are no sub tiles
+            return []
+        level = next_level_coord[2]
         bbox_, tile_grid_, tiles = layer.grid.get_affected_level_tiles(bbox, level)
         subtiles = []
         for coord in tiles:
